@@ -23,12 +23,16 @@ class ToyMulti(chi.MechanisticModel):
         self._sel = None         # indices of parameters with sensitivities
         self.calls = []          # tap: (parameters, times, with_sens)
         self.tap = False
+        self.share_calls = False  # copies append to the same tap list
 
     def copy(self):
         m = ToyMulti(self._n)
         m._s = self._s
         m._sel = None if self._sel is None else list(self._sel)
         m.tap = self.tap
+        m.share_calls = self.share_calls
+        if self.share_calls:
+            m.calls = self.calls
         return m
 
     def enable_sensitivities(self, enabled, parameter_names=None):
